@@ -7,61 +7,93 @@ import Bee2V.C17.LemmasCvcDec
 namespace Bee2V.C17
 open Bee2V.C08
 
-/-- what a successful btokCVCWrap has done -/
-theorem cvcWrap_ok_inv (S : Sig) (c c' : Cvc) (priv cert : Bytes) (h : cvcWrap S c priv = (.ok, c', cert)) :
-    privLenOk priv.length = true ∧
-    ∃ c1 body sg,
-      (c1 = c ∨ (c.pubkey.length = 0 ∧ ∃ pk, S.pubkeyCalc priv = (.ok, pk) ∧ c1 = { c with pubkey := pk })) ∧
-      cvcCheck S c1 = .ok ∧ bodyEnc c1 = .ok body ∧ S.sign body priv = (.ok, sg) ∧
-      c' = { c1 with sig := sg.take (sigLenOfPriv priv.length) } ∧ certEnc body c'.sig = .ok cert := by
+/- `whnf` must never look inside the encoders (their step lists contain ground calls of well-founded C08 routines):
+   the stages of btokCVCWrap are inverted one at a time, the later stages opaque. -/
+
+section
+attribute [local irreducible] certEnc
+theorem wrapSign_inv (S : Sig) (c c' : Cvc) (body priv cert : Bytes) (h : wrapSign S c body priv = (.ok, c', cert)) :
+    ∃ sg, S.sign body priv = (.ok, sg) ∧ c' = { c with sig := sg.take (sigLenOfPriv priv.length) } ∧
+      certEnc body c'.sig = .ok cert := by
+  unfold wrapSign at h
+  dsimp only at h
+  by_cases hsc : (S.sign body priv).1 ≠ .ok
+  · rw [if_pos hsc] at h; exact absurd (congrArg Prod.fst h) hsc
+  rw [if_neg hsc] at h
+  have hsc' : (S.sign body priv).1 = .ok := by simpa using hsc
+  obtain ⟨rc2, hce⟩ : ∃ r, certEnc body (List.take (sigLenOfPriv priv.length) (S.sign body priv).2) = r := ⟨_, rfl⟩
+  rw [hce] at h
+  cases rc2 with
+  | err => exact absurd (congrArg Prod.fst h) (by simp)
+  | oob => exact absurd (congrArg Prod.fst h) (by simp)
+  | ok cert0 =>
+    dsimp only at h
+    have h2 := congrArg Prod.snd h
+    dsimp only at h2
+    have hc' : c' = { c with sig := List.take (sigLenOfPriv priv.length) (S.sign body priv).2 } := (congrArg Prod.fst h2).symm
+    have hcert : cert0 = cert := congrArg Prod.snd h2
+    refine ⟨(S.sign body priv).2, ?_, hc', ?_⟩
+    · rw [← hsc']
+    · rw [hc', ← hcert]; exact hce
+end
+
+section
+attribute [local irreducible] bodyEnc wrapSign cvcCheck
+theorem wrapChecked_inv (S : Sig) (c c' : Cvc) (priv cert : Bytes) (h : wrapChecked S c priv = (.ok, c', cert)) :
+    cvcCheck S c = .ok ∧ ∃ body, bodyEnc c = .ok body ∧ wrapSign S c body priv = (.ok, c', cert) := by
+  unfold wrapChecked at h
+  dsimp only at h
+  by_cases hck : cvcCheck S c ≠ .ok
+  · rw [if_pos hck] at h; exact absurd (congrArg Prod.fst h) hck
+  rw [if_neg hck] at h
+  refine ⟨by simpa using hck, ?_⟩
+  obtain ⟨rb, hb⟩ : ∃ rb, bodyEnc c = rb := ⟨_, rfl⟩
+  rw [hb] at h
+  cases rb with
+  | err => exact absurd (congrArg Prod.fst h) (by simp)
+  | oob => exact absurd (congrArg Prod.fst h) (by simp)
+  | ok body => exact ⟨body, rfl, h⟩
+end
+
+section
+attribute [local irreducible] wrapChecked
+theorem cvcWrap_inv (S : Sig) (c c' : Cvc) (priv cert : Bytes) (h : cvcWrap S c priv = (.ok, c', cert)) :
+    privLenOk priv.length = true ∧ ∃ c1, wrapGenPub S c priv = (.ok, c1) ∧ wrapChecked S c1 priv = (.ok, c', cert) := by
   unfold cvcWrap at h
   have hpl : privLenOk priv.length = true := by
     cases hp : privLenOk priv.length
-    · rw [hp, if_pos rfl] at h; cases h
+    · rw [hp] at h
+      have := congrArg Prod.fst h
+      simp at this
     · rfl
   rw [if_neg (by simp [hpl])] at h
   refine ⟨hpl, ?_⟩
   dsimp only at h
-  -- the content after the optional key generation
-  have hc1 : ∃ rc c1, (if c.pubkey.length = 0 then
-        (if (S.pubkeyCalc priv).1 ≠ .ok then ((S.pubkeyCalc priv).1, c) else (E.ok, { c with pubkey := (S.pubkeyCalc priv).2 }))
-        else (E.ok, c)) = (rc, c1) := ⟨_, _, rfl⟩
-  obtain ⟨rc, c1, hr⟩ := hc1
+  obtain ⟨rc, c1, hr⟩ : ∃ rc c1, wrapGenPub S c priv = (rc, c1) := ⟨_, _, rfl⟩
   rw [hr] at h
   dsimp only at h
   by_cases hrc : rc ≠ .ok
-  · rw [if_pos hrc] at h; cases h; exact absurd rfl hrc
+  · rw [if_pos hrc] at h; exact absurd (congrArg Prod.fst h) hrc
   rw [if_neg hrc] at h
   have hrc' : rc = .ok := by simpa using hrc
-  have hc1' : c1 = c ∨ (c.pubkey.length = 0 ∧ ∃ pk, S.pubkeyCalc priv = (.ok, pk) ∧ c1 = { c with pubkey := pk }) := by
-    by_cases h0 : c.pubkey.length = 0
-    · rw [if_pos h0] at hr
-      by_cases hk : (S.pubkeyCalc priv).1 ≠ .ok
-      · rw [if_pos hk] at hr; cases hr; exact absurd hrc' hk
-      · rw [if_neg hk] at hr; cases hr
-        right
-        refine ⟨h0, (S.pubkeyCalc priv).2, ?_, rfl⟩
-        have : (S.pubkeyCalc priv).1 = .ok := by simpa using hk
-        rw [← this]
-    · rw [if_neg h0] at hr; cases hr; exact Or.inl rfl
-  by_cases hck : cvcCheck S c1 ≠ .ok
-  · rw [if_pos hck] at h; cases h; exact absurd rfl hck
-  rw [if_neg hck] at h
-  have hck' : cvcCheck S c1 = .ok := by simpa using hck
-  cases hb : bodyEnc c1 with
-  | err => rw [hb] at h; cases h
-  | oob => rw [hb] at h; cases h
-  | ok body =>
-    rw [hb] at h; dsimp only at h
-    by_cases hsc : (S.sign body priv).1 ≠ .ok
-    · rw [if_pos hsc] at h; cases h; exact absurd rfl hsc
-    rw [if_neg hsc] at h
-    have hsc' : (S.sign body priv).1 = .ok := by simpa using hsc
-    cases hce : certEnc body (List.take (sigLenOfPriv priv.length) (S.sign body priv).2) with
-    | err => rw [hce] at h; cases h
-    | oob => rw [hce] at h; cases h
-    | ok cert0 =>
-      rw [hce] at h; cases h
-      exact ⟨c1, body, (S.sign body priv).2, hc1', hck', rfl, by rw [← hsc'], rfl, hce⟩
+  subst hrc'
+  exact ⟨c1, rfl, h⟩
+end
+
+theorem wrapGenPub_inv (S : Sig) (c c1 : Cvc) (priv : Bytes) (h : wrapGenPub S c priv = (.ok, c1)) :
+    c1 = c ∨ (c.pubkey.length = 0 ∧ ∃ pk, S.pubkeyCalc priv = (.ok, pk) ∧ c1 = { c with pubkey := pk }) := by
+  unfold wrapGenPub at h
+  by_cases h0 : c.pubkey.length = 0
+  · rw [if_pos h0] at h
+    dsimp only at h
+    by_cases hk : (S.pubkeyCalc priv).1 ≠ .ok
+    · rw [if_pos hk] at h
+      exact absurd (congrArg Prod.fst h) hk
+    · rw [if_neg hk] at h
+      right
+      refine ⟨h0, (S.pubkeyCalc priv).2, ?_, (congrArg Prod.snd h).symm⟩
+      have : (S.pubkeyCalc priv).1 = .ok := by simpa using hk
+      rw [← this]
+  · rw [if_neg h0] at h; exact Or.inl (congrArg Prod.snd h).symm
 
 end Bee2V.C17
